@@ -18,6 +18,7 @@ func init() { props["C08"] = runC08 }
 // middle of a traversal
 
 var c08Sink [][]uintptr
+var c08Calls int
 
 func c08Churn(n int) {
 	if n < 0 {
@@ -34,7 +35,9 @@ func c08Churn(n int) {
 		return grow(d-1) + pad[(d+1)%64]
 	}
 	_ = grow(300 + (n%7)*300)
-	if n%16 == 0 {
+	c08Calls++
+	if n%16 == 0 && (c08Calls < 400 || c08Calls%64 == 0) {
+		// (every call of a short traversal, one in 64 of a long one: a collection takes milliseconds)
 		runtime.GC()
 	}
 	// overwrite whatever the collection freed
@@ -498,6 +501,7 @@ func c08Cycle(t reflect.Type, pre, cyc int) reflect.Value {
 
 // c08Judge runs every entry point on iv with the slot assertions on
 func c08Judge(c *Ctx, label string, iv interface{}, t reflect.Type, full bool) {
+	c08Calls = 0
 	in := fmt.Sprintf("%s = %s", genTypeString(t), c01Show(iv))
 	cls := c01ClassOf(iv, nil, nil, nil, nil)
 	if strings.HasPrefix(cls, "C08-") {
@@ -541,12 +545,20 @@ func c08Judge(c *Ctx, label string, iv interface{}, t reflect.Type, full bool) {
 // level once more: with indentation that is cubic in the depth (60 s for 2000 levels, where
 // encoding/json needs one), so indented output of map towers is requested up to `indentMax` levels.
 func c08JudgeDeep(c *Ctx, label, in string, iv interface{}, depth int, mapTower bool) {
+	c08Calls = 0
 	json.VerifSlotsReset(true)
 	eq := func(name string, f func() ([]byte, error), sf func() ([]byte, error), tr func([]byte) []byte) {
 		g, gerr, gp := safeMarshal(f)
 		s, serr := sf()
 		if tr != nil && gerr == nil {
 			g = tr(g)
+		}
+		if serr != nil && strings.Contains(serr.Error(), "exceeded max depth") {
+			// encoding/json indents through its scanner, which stops at 10000 levels of nesting; the
+			// property asks go-json to return, not to share that limit
+			c.Rep.Hist["reference-exceeded-its-depth-limit"]++
+			c.Oracle(name+"/"+label, in, fmt.Sprintf("err=%s panic=%s", errT(gerr), gp), "returns", gp == "", "")
+			return
 		}
 		ok := gp == "" && (gerr == nil) == (serr == nil) && (gerr != nil || c01Norm(g) == c01Norm(s))
 		c.Oracle(name+"/"+label, in, fmt.Sprintf("%s err=%s panic=%s", trunc(g), errT(gerr), gp), fmt.Sprintf("%s err=%v", trunc(s), serr), ok, "")
@@ -564,7 +576,8 @@ func c08JudgeDeep(c *Ctx, label, in string, iv interface{}, depth int, mapTower 
 		// member order is free: same length as the sorted text, and a valid document
 		u, uerr, up := safeMarshal(func() ([]byte, error) { return json.MarshalWithOption(iv, json.UnorderedMap()) })
 		s, serr := std()
-		ok := up == "" && (uerr == nil) == (serr == nil) && (uerr != nil || len(u) == len(s) && stdjson.Valid(u))
+		// (encoding/json's Valid stops at 10000 levels of nesting)
+		ok := up == "" && (uerr == nil) == (serr == nil) && (uerr != nil || len(u) == len(s) && (depth > 2400 || stdjson.Valid(u)))
 		c.Oracle("unorderedmap/"+label, in, fmt.Sprintf("%s err=%s panic=%s", trunc(u), errT(uerr), up), fmt.Sprintf("%s err=%v", trunc(s), serr), ok, "")
 	}
 	indentMax := 1 << 30
@@ -671,6 +684,10 @@ func runC08(c *Ctx) {
 		depths = append(append([]int{}, c08Depths...), 4, 64, 512, 998, 1004, 1999, 2001, 5000, 20000)
 	}
 	ndepth := len(fam) * len(depths)
+	if c.Thorough() {
+		c.CaseBudget = 12 // chains of 5000 and 20000 levels with callbacks that collect garbage take seconds
+		c.Chunk = 100
+	}
 	c.RunCases("depth", ndepth, func(c *Ctx, k int, rng *rand.Rand) {
 		t := fam[k%len(fam)]
 		d := depths[(k/len(fam))%len(depths)]
